@@ -450,3 +450,25 @@ def _witness_still_fails(self, kf):
 
 
 Ctx.witness_still_fails = _witness_still_fails
+
+
+def modules_for(prop):
+    """Lean property modules of a check: every lean/SfProps/*.lean whose name starts with the property id (C04Aiff -> C04), plus the
+    files that declare further owners in a header line `-- properties: C04 C11` (first 12 lines). No shared list to edit when a file is added."""
+    res = []
+    d = os.path.join(LEAN, "SfProps")
+    for f in sorted(os.listdir(d)):
+        if not f.endswith(".lean"):
+            continue
+        owners = {f[:3]} if re.match(r"C\d\d", f) else set()
+        with open(os.path.join(d, f)) as fh:
+            for _ in range(12):
+                line = fh.readline()
+                m = re.match(r"\s*--\s*properties:\s*(.*)$", line)
+                if m:
+                    owners |= set(m.group(1).split())
+        if prop in owners:
+            res.append("SfProps." + f[:-5])
+    # the base module first
+    res.sort(key=lambda m: (m != "SfProps." + prop, m))
+    return res
